@@ -144,9 +144,14 @@ def render(case, with_mainblocks=True, with_unused=True):
             L += render_func(f, "", "", "")
             merged += render_func(f, pre, pre, pre)
         if m["unused"] and with_unused:
-            L += ["def never_called(z):", "    d5.Mode = z + 77", "    return z"]
+            L += ["def never_called(z):"]
+            if m["globals"]:
+                L += [f"    global {m['globals'][0][0]}", f"    {m['globals'][0][0]} = 555"]
+            L += ["    d5.Mode = z + 77", "    return z"]
         if m["mainblock"] and with_mainblocks:
             L += ['if __name__ == "__main__":', "    d5.On = 4242"]
+            for g, _ in m["globals"]:
+                L.append(f"    {g} = 999")  # a self-test block that re-binds module-level names
             f0 = m["funcs"][0]
             L.append(f"    {f0['name']}({', '.join('9' for _ in range(f0['npar']))})")
         A[uname] = "\n".join(L) + "\n"
